@@ -183,6 +183,14 @@ class AsyncTLSStreamTransport(AsyncStreamTransport):
                     try:
                         try:
                             await self._retry_ssl_method(self._ssl_object.unwrap)
+                        except _ssl_module.SSLError:
+                            # unwrap() may have produced the close_notify alert before failing
+                            # (e.g. unread application data is pending): send it anyway.
+                            if self._write_bio.pending:
+                                with contextlib.suppress(OSError):
+                                    async with self.__transport_send_lock:
+                                        if self._write_bio.pending:
+                                            await self._transport.send_all(self._write_bio.read())
                         except OSError:
                             pass
                         self._read_bio.write_eof()
